@@ -11,13 +11,18 @@ void SimSolver::PreDerive(double t){
   rec(0,0,0,t);
   RunCtx& c=*ctx;
   if(c.in_proxy && c.cur_input){
-    // binding correctness at the moment it matters: the in-step views sit on the stepper's input array
+    // binding correctness at the moment it matters: what a derived class reads through the in-step views in PreDerive is the state the
+    // stepper passed for this evaluation (compared by value: where the views live is the library's business)
     for(unsigned ix=0;ix<nx;ix++){
       for(unsigned ir=0;ir<nrhos;ir++){
         const double* want=c.cur_input+ix*stride()+ir*nsun*nsun;
-        if(&estate[ix].rho[ir][0]!=want){ c.violation("C04","rhs:view-binding","estate","in PreDerive the evolving view of node "+std::to_string(ix)+" matrix "+std::to_string(ir)+" is not bound to the stepper's input array"); return; }
+        const squids::SU_vector& v=estate[ix].rho[ir];
+        bool same=(v.Dim()==nsun);
+        for(unsigned k=0;same&&k<nsun*nsun;k++) if(memcmp(&v[k],&want[k],sizeof(double))!=0) same=false;
+        if(!same){ c.violation("C04","rhs:view-binding","estate","in PreDerive the evolving view of node "+std::to_string(ix)+" matrix "+std::to_string(ir)+" does not show the state the stepper passed for this evaluation"); return; }
       }
-      if(nscalars>0 && estate[ix].scalar!=c.cur_input+ix*stride()+nrhos*nsun*nsun){ c.violation("C04","rhs:view-binding","scalar","in PreDerive the scalar view of node "+std::to_string(ix)+" is not bound to the stepper's input array"); return; }
+      for(unsigned is=0;is<nscalars;is++) if(memcmp(&estate[ix].scalar[is],&c.cur_input[ix*stride()+nrhos*nsun*nsun+is],sizeof(double))!=0){
+        c.violation("C04","rhs:view-binding","scalar","in PreDerive the scalar view of node "+std::to_string(ix)+" does not show the state the stepper passed for this evaluation"); return; }
     }
   }
 }
